@@ -105,31 +105,33 @@ pub enum SItem {
 }
 type SStream = Pin<Box<dyn Stream<Item = SItem>>>;
 
-fn mk_opts(cfg: &RunCfg, rx: Option<mpsc::Receiver<InterruptSignal>>) -> StreamOpts<'static, 'static> {
+fn mk_opts(cfg: &RunCfg, rx: Option<mpsc::Receiver<InterruptSignal>>, w: &W, run: usize) -> StreamOpts<'static, 'static> {
     let mut o = StreamOpts::new();
     if cfg.order == "rev" {
         o = o.rev();
     }
-    match cfg.strategy.as_str() {
-        "none" => {}
-        "non" => o = o.interruptibility_state(InterruptibilityState::new_non_interruptible()),
-        "ignore" => {
-            o = o.interruptibility_state(InterruptibilityState::new_ignore_interruptions(
-                rx.expect("rx").into(),
-            ))
-        }
-        "finish" => {
-            o = o.interruptibility_state(InterruptibilityState::new_finish_current(
-                rx.expect("rx").into(),
-            ))
-        }
-        "poll_n" => {
-            o = o.interruptibility_state(InterruptibilityState::new_poll_next_n(
-                rx.expect("rx").into(),
-                cfg.k,
-            ))
-        }
+    let state = match cfg.strategy.as_str() {
+        "none" => None,
+        "non" => Some(InterruptibilityState::new_non_interruptible()),
+        "ignore" => Some(InterruptibilityState::new_ignore_interruptions(rx.expect("rx").into())),
+        "finish" => Some(InterruptibilityState::new_finish_current(rx.expect("rx").into())),
+        "poll_n" => Some(InterruptibilityState::new_poll_next_n(rx.expect("rx").into(), cfg.k)),
         s => panic!("harness: unknown strategy {s}"),
+    };
+    if let Some(mut state) = state {
+        // the two callbacks of the interruptibility state are observed as events
+        let (w1, w2) = (w.clone(), w.clone());
+        state.set_fn_interrupt_activate(Some(move || {
+            if let Ok(mut world) = w1.try_borrow_mut() {
+                world.ev(json!({"ev":"int_activate","run":run}));
+            }
+        }));
+        state.set_fn_interrupt_poll_item(Some(move || {
+            if let Ok(mut world) = w2.try_borrow_mut() {
+                world.ev(json!({"ev":"int_poll_item","run":run}));
+            }
+        }));
+        o = o.interruptibility_state(state);
     }
     if !cfg.include {
         o = o.interrupted_next_item_include(false);
@@ -155,7 +157,7 @@ fn mk_call(
     w: &W,
     rx: Option<mpsc::Receiver<InterruptSignal>>,
 ) -> CallFut {
-    let opts = mk_opts(cfg, rx);
+    let opts = mk_opts(cfg, rx, w, run);
     let limit = limit_of(cfg);
     let w = w.clone();
     macro_rules! shared {
@@ -364,9 +366,11 @@ fn mk_stream(
     cfg: &RunCfg,
     g: *mut FnGraph<Node>,
     rx: Option<mpsc::Receiver<InterruptSignal>>,
+    w: &W,
+    run: usize,
 ) -> SStream {
     let g: &'static FnGraph<Node> = unsafe { &*g };
-    let opts = mk_opts(cfg, rx);
+    let opts = mk_opts(cfg, rx, w, run);
     let plain_default = cfg.strategy == "none" && cfg.order == "fwd" && cfg.include;
     match (cfg.api.as_str(), cfg.with) {
         ("stream", false) if plain_default => Box::pin(g.stream().map(SItem::Item)),
@@ -578,7 +582,8 @@ impl Exec {
                 self.w.borrow_mut().cur_run = run;
                 if cfg.is_stream() {
                     let g = self.g;
-                    match catch_unwind(AssertUnwindSafe(|| mk_stream(&cfg, g, rx))) {
+                    let w = self.w.clone();
+                    match catch_unwind(AssertUnwindSafe(|| mk_stream(&cfg, g, rx, &w, run))) {
                         Ok(s) => {
                             self.runs[r].body = Body::Stream(Some(s));
                             self.runs[r].status = Status::Live;
